@@ -1106,9 +1106,11 @@ def _exp_point_axiom(c, v, az, xc, yc):
     d = Fr(1, 10 ** 6)
     c.add_axiom(z3.And(z3.Implies(az <= _rv(Fr(xc) + d), v <= _rv(Fr(yc) * (1 + 2 * d))),
                        z3.Implies(az >= _rv(Fr(xc) - d), v >= _rv(Fr(yc) * (1 - 2 * d)))))
+    # convexity: the tangent at the point lies below the graph everywhere (linear axiom)
+    c.add_axiom(v >= lo * (1 + az - xz))
 
 
-def note_exp_point(x, y):
+def note_exp_point(x, y, force=False):
     """Called by the numpy shim when exp() is evaluated on a concrete argument."""
     c = _ctx._CUR[0]
     if c is None:
@@ -1120,14 +1122,16 @@ def note_exp_point(x, y):
         return
     if not (math.isfinite(x) and math.isfinite(y)) or y <= 0:
         return
-    if any(abs(x - xc) <= 1e-300 for xc, _ in c.exp_points) or len(c.exp_points) > 40:
-        return
+    if any(abs(x - xc) <= 1e-300 for xc, _ in c.exp_points) or len(c.exp_points) > (
+            80 if force else 40):
+        return False
     c.exp_points.append((x, y))
     for (idx, arg) in c.fun_atoms.get('exp', []):
         _exp_point_axiom(c, c.atoms[idx], arg.z3(), x, y)
     # the same point constrains log atoms: log(t) vs x at t = y
     for (idx, arg) in c.fun_atoms.get('log', []):
         _log_point_axiom(c, c.atoms[idx], arg.z3(), y, x)
+    return True
 
 
 def _log_point_axiom(c, v, az, tc, lc):
@@ -1141,6 +1145,8 @@ def _log_point_axiom(c, v, az, tc, lc):
     c.add_axiom(z3.And(z3.Implies(az >= _rv(Fr(tc) * (1 - d)), v >= _rv(Fr(lc) - 2 * d)),
                        z3.Implies(z3.And(az > 0, az <= _rv(Fr(tc) * (1 + d))),
                                   v <= _rv(Fr(lc) + 2 * d))))
+    # concavity: the tangent at the point lies above the graph (linear axiom)
+    c.add_axiom(z3.Implies(az > 0, v <= _rv(Fr(lc) + 2 * d) + az * _rv(1 / Fr(tc)) - 1))
 
 
 def log(a):
@@ -1168,6 +1174,8 @@ def log(a):
         for (xc, yc) in c.exp_points:
             _log_point_axiom(c, v, az, yc, xc)
         c.add_axiom(z3.Implies(az > 0, v <= az - 1))
+        # log x >= 1 - 1/x for every x > 0 (the mirror image of e^u (1-u) <= 1)
+        c.add_axiom(z3.Implies(az > 0, az * v >= az - 1))
         c.add_axiom(z3.Implies(az > 1, v > 0))
         c.add_axiom(z3.Implies(z3.And(az > 0, az < 1), v < 0))
         c.add_axiom(z3.Implies(az == 1, v == 0))
